@@ -64,7 +64,8 @@ type treeDriver struct {
 	out    *tlaio.Out
 	c      *Chain
 	perKey map[string]int
-	dirty  bool
+	dirty   bool
+	abandon bool
 }
 
 func (d *treeDriver) violation(id, key, what string, det interface{}) {
@@ -85,6 +86,7 @@ func (d *treeDriver) lostCallback(id string, step int, op string, p []int, det m
 	}
 	det["goroutines"] = dump
 	d.out.Divergence(id, fmt.Sprintf("step %d: %s on %v returned no error but its callback did not arrive within %v", step, op, p, callbackTimeout), det)
+	d.abandon = true // the request may still complete: leave the handles alone and replace the node
 	return nil
 }
 
@@ -139,7 +141,7 @@ func (d *treeDriver) run(idx int, steps []tstep) error {
 	id := fmt.Sprintf("t%d", idx)
 	// every behaviour starts from the finalized block alone; after a behaviour that ended in a mismatch the node is replaced
 	if ns, fin, ok := block.VerifTree(d.c.Node.BM); !ok || len(ns) != 1 || !bytes.Equal(fin, d.c.Tip.ID()) || ns[0].NRef != 1 {
-		if !d.dirty {
+		if !d.dirty && !d.abandon {
 			return fmt.Errorf("behaviour %d does not start from a clean tree although its predecessor conformed: %+v", idx, ns)
 		}
 		d.c.Close()
@@ -152,6 +154,7 @@ func (d *treeDriver) run(idx int, steps []tstep) error {
 		}
 		d.c = nc
 	}
+	d.abandon = false
 	d.out.Begin(id, "tree:crash") // a panic of the manager is attributed to this behaviour
 	d.dirty = true                // cleared when the behaviour conforms to the end
 	c := d.c
@@ -174,6 +177,9 @@ func (d *treeDriver) run(idx int, steps []tstep) error {
 		return m
 	}
 	defer func() {
+		if d.abandon {
+			return
+		}
 		for _, h := range handles {
 			h.Dispose()
 		}
@@ -219,7 +225,11 @@ func (d *treeDriver) run(idx int, steps []tstep) error {
 				var f *Formats
 				_, hch, herr := d.propose(parent, vb)
 				if herr == nil {
-					if r, ok := wait(hch); ok && r.err == nil {
+					r, ok := wait(hch)
+					if !ok {
+						return d.lostCallback(id, i, "propose (to obtain the bytes for import)", s.P, det(i, nil))
+					}
+					if r.err == nil {
 						if f, err = FormatsOf(r.bc); err != nil {
 							return err
 						}
@@ -239,7 +249,10 @@ func (d *treeDriver) run(idx int, steps []tstep) error {
 							return fmt.Errorf("behaviour %d step %d: cannot make a template block: %v", idx, i, terr)
 						}
 						r, ok := wait(tch)
-						if !ok || r.err != nil {
+						if !ok {
+							return d.lostCallback(id, i, "propose (template block)", nil, det(i, nil))
+						}
+						if r.err != nil {
 							return fmt.Errorf("behaviour %d step %d: cannot make a template block: %v", idx, i, r.err)
 						}
 						if template, err = FormatsOf(r.bc); err != nil {
@@ -319,6 +332,27 @@ func (d *treeDriver) run(idx int, steps []tstep) error {
 					return nil
 				}
 				nodes[pk(child)] = bc
+			}
+		case "raced":
+			// a request on a candidate whose only holder gives the candidate back before the request has completed
+			parent := nodes[pk(s.P)]
+			child := append(append([]int{}, s.P...), s.V)
+			vb, err := votesFor(parent, child, s.V)
+			if err != nil {
+				return err
+			}
+			d.out.Begin(id, "tree:crash:parent-disposed-while-request-executes")
+			_, ch, rerr := d.propose(parent, vb)
+			handles[s.H].Dispose()
+			defer func(h int) { delete(handles, h) }(s.H)
+			if rerr == nil {
+				select {
+				case r := <-ch:
+					if r.err == nil && r.bc != nil {
+						r.bc.Dispose() // the request won the race: giving the candidate back leads to the same tree
+					}
+				case <-time.After(3 * time.Second):
+				}
 			}
 		case "cancel":
 			cn := cancelers[s.H]
